@@ -12,13 +12,14 @@ from engines.storesim import pat_bytes
 from sim.choice import Chooser
 from sim.reactor import EventCap
 
+from twisted.internet import defer
 from twisted.python.failure import Failure
 
 from allmydata import dirnode as dirnode_mod, uri as uri_mod
 from allmydata.dirnode import ONLY_FILES
 from allmydata.immutable.upload import Data
 from allmydata.mutable.publish import MutableData
-from allmydata.interfaces import (ExistingChildError, NoSuchChildError, ChildOfWrongTypeError, MustBeDeepImmutableError,
+from allmydata.interfaces import (MustNotBeUnknownRWError, ExistingChildError, NoSuchChildError, ChildOfWrongTypeError, MustBeDeepImmutableError,
                                   MustBeReadonlyError, SDMF_VERSION, MDMF_VERSION, IDirectoryNode, IFileNode)
 from allmydata.unknown import UnknownNode
 from allmydata.monitor import Monitor
@@ -55,6 +56,8 @@ def gen_dir(seed, tier, focus):
     nops = ch.randint(W, "nops", 4, 30 if focus in ("C20", "C19") else 18)
     ops = [["mkdir", ch.pick(W, "kind0", ["sdmf", "mdmf"])]]
     OBJ = ["lit", "lit2", "chk", "ssk", "mdmf", "dir0", "dir1", "dir2", "dir0-ro", "ssk-ro", "unknown", "unknown-ro", "unknown-imm", "immdir"]
+    if focus in ("C18", "C19", "C20"):
+        OBJ = OBJ + ["unknown-rw-only"]
     if focus == "C21":
         # traversal is about the shape of the graph: more directories, linked from several places, at several depths,
         # by write-cap and by read-cap
@@ -144,6 +147,8 @@ class World(object):
         self.objs["mdmf"] = (n.get_uri(), n.get_readonly_uri())
         self.objs["unknown"] = (b"lafs://from_the_future_rw", b"lafs://from_the_future_ro")
         self.objs["unknown-ro"] = (None, b"ro.lafs://from_the_future_ro2")
+        # a cap of unknown format offered as a write cap with no read cap to go with it: nothing can be stored for a reader
+        self.objs["unknown-rw-only"] = (b"lafs://from_the_future_rw_only", None)
         self.objs["unknown-imm"] = (None, b"imm.lafs://from_the_future_imm")
         settle(200_000)
         for nm, (rw, ro) in self.objs.items():
@@ -212,6 +217,9 @@ def exec_dir(case):
             return (client or w).create_node_from_uri(d["rw"])
 
         def expect_error(st, res, classes, what):
+            if MustNotBeUnknownRWError in classes and st == "ok":
+                bad("C18", "unknown-write-cap-stored", "%s accepted a capability of unknown format given as a write cap with no read cap: it can only be "
+                    "stored where read-cap holders see it" % what)
             if st != "err" or not res.check(*classes):
                 bad("C20", "expected-error", "%s should have failed with %s but %s%s" % (
                     what, "/".join(c.__name__ for c in classes), st, (" " + err_name(res)) if st == "err" else ""),
@@ -240,6 +248,8 @@ def exec_dir(case):
             for (name, caps, md) in entries:
                 nname = norm(name)
                 old_md = None
+                if caps[0] is not None and caps[1] is None and not caps[0].startswith((b"URI:", b"ro.", b"imm.")):
+                    return MustNotBeUnknownRWError
                 if nname in new:
                     if overwrite is False:
                         return ExistingChildError
@@ -438,10 +448,10 @@ def exec_dir(case):
                     continue
                 owarg = ONLY_FILES if ow == "only-files" else ow
                 if via == "set_uri":
-                    dd = node.set_uri(name, caps[0], caps[1], metadata=md, overwrite=owarg)
+                    dd = defer.maybeDeferred(node.set_uri, name, caps[0], caps[1], metadata=md, overwrite=owarg)
                 else:
                     child = w.create_node_from_uri(caps[0], caps[1])
-                    dd = node.set_node(name, child, metadata=md, overwrite=owarg)
+                    dd = defer.maybeDeferred(node.set_node, name, child, metadata=md, overwrite=owarg)
                 st, res = drive(dd, "add")
                 before = {k_: dict(v) for k_, v in d["children"].items()}
                 err = apply_add(didx, [(name, caps, md)], ow, now)
@@ -475,10 +485,10 @@ def exec_dir(case):
                     nentries = {}
                     for n_, e_ in entries.items():
                         nentries[n_] = (W.w.create_node_from_uri(e_[0], e_[1]), e_[2] if len(e_) > 2 else None)
-                    st, res = drive(node.set_nodes(nentries, overwrite=ow), "set_nodes")
+                    st, res = drive(defer.maybeDeferred(node.set_nodes, nentries, overwrite=ow), "set_nodes")
                     probe("set_nodes")
                 else:
-                    st, res = drive(node.set_children(entries, overwrite=ow), "set_children")
+                    st, res = drive(defer.maybeDeferred(node.set_children, entries, overwrite=ow), "set_children")
                 before = {k_: dict(v) for k_, v in d["children"].items()}
                 err = apply_add(didx, [(n_, c_, m_) for (n_, c_, m_) in mentries if n_ in entries], ow, now)
                 if err is not None:
